@@ -271,7 +271,7 @@ REGISTRY = {
     },
     "C05": {
         "rules": [decomp.rule_absorb_tables, decomp.rule_cutoff_tables, decomp.rule_guard_agree,
-                  decomp.rule_clamp, decomp.rule_use_or_reject, decomp.rule_split_flags, decomp.rule_cache_immut, decomp.rule_cache_typed, decomp.rule_alias_normalised, decomp.rule_renorm_power_siblings],
+                  decomp.rule_clamp, decomp.rule_use_or_reject, decomp.rule_split_flags, decomp.rule_cache_immut, decomp.rule_cache_typed, decomp.rule_alias_normalised, decomp.rule_renorm_power_siblings, decomp.rule_full_spectrum_before_trim],
         "explanation": (
             "static (constant evaluation of the module-level tables + decision-table extraction + sibling "
             "comparison): decides that the absorb / cutoff-mode vocabularies are decoded identically by the "
